@@ -18,6 +18,9 @@
 //	dealloc <hexip>    => ok [s-=<key>] [x-=<key>…] [r-=<key>…] [e-=<key>…]
 //	pkt egress|ingress <hexframe>   => <verdict> same|<hexframe-after>[ ev=N]      (as the runner prints it)
 //	maps               => x=<key>:<nat_ip nat_port orig_port orig_ip>,… r=<key>:<value>,… e=<key>:<ext_ip ext_port>,… s=<key>:<block 12 bytes>,…
+//	fault on|off       => ok      (the manager's handle of subscriber_nat is a CLOSED duplicate: every Put and every Delete
+//	                               of the manager fails with EBADF; the kernel map itself is untouched and still read back)
+//	                               alloc / dealloc then answer `err kernel-write-failed` where the write was attempted
 package main
 
 import (
@@ -42,6 +45,7 @@ type comp struct{}
 
 var shared *hx.CRunner
 var kmaps = map[string]*ebpf.Map{}
+var deadSub *ebpf.Map // a closed duplicate of the subscriber_nat handle (fault injection)
 
 var names = []string{"subscriber_nat", "nat_sessions", "nat_reverse", "eim_table"}
 var tags = map[string]string{"subscriber_nat": "s", "nat_sessions": "x", "nat_reverse": "r", "eim_table": "e"}
@@ -207,6 +211,12 @@ func (r *run) start(toks []string) string {
 			}
 			kmaps[n] = m
 		}
+		d, err := kmaps["subscriber_nat"].Clone()
+		if err != nil {
+			return "err kernel-map " + err.Error()
+		}
+		d.Close()
+		deadSub = d
 	}
 	r.snap = map[string]map[string]string{}
 	for _, n := range names {
@@ -243,6 +253,14 @@ func (r *run) start(toks []string) string {
 	return "ok"
 }
 
+// errText renders an error of the manager; failures of the kernel-map write are named, not quoted (errno text)
+func errText(err error) string {
+	if strings.Contains(err.Error(), "eBPF map") || strings.Contains(err.Error(), "subscriber NAT entry") {
+		return "kernel-write-failed"
+	}
+	return strings.ReplaceAll(err.Error(), " ", "_")
+}
+
 func (r *run) Do(op string) string {
 	toks := hx.Fields(op)
 	if len(toks) == 0 {
@@ -263,7 +281,7 @@ func (r *run) Do(op string) string {
 		_, err := r.mgr.AllocateNAT(ip)
 		d := r.kernelToRunner()
 		if err != nil {
-			return strings.Join(append([]string{"err", strings.ReplaceAll(err.Error(), " ", "_")}, d...), " ")
+			return strings.Join(append([]string{"err", errText(err)}, d...), " ")
 		}
 		return strings.Join(append([]string{"ok"}, d...), " ")
 	case toks[0] == "dealloc" && len(toks) == 2:
@@ -274,7 +292,7 @@ func (r *run) Do(op string) string {
 		err := r.mgr.DeallocateNAT(ip)
 		d := r.kernelToRunner()
 		if err != nil {
-			return strings.Join(append([]string{"err", strings.ReplaceAll(err.Error(), " ", "_")}, d...), " ")
+			return strings.Join(append([]string{"err", errText(err)}, d...), " ")
 		}
 		return strings.Join(append([]string{"ok"}, d...), " ")
 	case toks[0] == "pkt" && len(toks) == 3 && (toks[1] == "egress" || toks[1] == "ingress"):
@@ -283,6 +301,13 @@ func (r *run) Do(op string) string {
 			return e
 		}
 		return obs
+	case toks[0] == "fault" && len(toks) == 2 && (toks[1] == "on" || toks[1] == "off"):
+		if toks[1] == "on" {
+			r.mgr.SetSubscriberNATMapForVerif(deadSub)
+		} else {
+			r.mgr.SetSubscriberNATMapForVerif(kmaps["subscriber_nat"])
+		}
+		return "ok"
 	case toks[0] == "maps" && len(toks) == 1:
 		var out []string
 		cut := map[string]int{"nat_sessions": 24, "nat_reverse": 32, "eim_table": 12, "subscriber_nat": 24}
@@ -385,6 +410,20 @@ func (comp) Gen(r *rand.Rand, tier string, emit func([]string)) {
 			})
 		}
 	}
+	// the kernel refuses the Delete of k1's block (finding C10-delete-failure-frees-block): k1 must keep the block -- its
+	// flow keeps its port, k2 gets another block, a second release (the handle works again) removes everything
+	for _, eim := range []int{0, 1} {
+		for _, proto := range []byte{17, 6, 1} {
+			a, b, d := privs[0], privs[1], dsts[0]
+			emit([]string{
+				fmt.Sprintf("new pps=4 start=2000 end=2011 eim=%d pub=%s", eim, hexip(pubs[0])),
+				"alloc " + hexip(a), egress(proto, a, d, 5000, 53), "fault on", "dealloc " + hexip(a), "alloc " + hexip(privs[2]), "maps",
+				"fault off", "alloc " + hexip(b), egress(proto, a, d, 5000, 53), egress(proto, b, d, 5000, 53),
+				reply(proto, d, pubs[0], 53, 2000), reply(proto, d, pubs[0], 53, 2004), "maps",
+				"dealloc " + hexip(a), "alloc " + hexip(privs[2]), egress(proto, privs[2], d, 5000, 53), reply(proto, d, pubs[0], 53, 2000), "maps",
+			})
+		}
+	}
 	n := 150
 	steps := 40
 	if thorough {
@@ -405,7 +444,9 @@ func (comp) Gen(r *rand.Rand, tier string, emit func([]string)) {
 			p := hx.Pick(r, privs[:3])
 			proto := hx.Pick(r, []byte{17, 17, 6, 1})
 			d := hx.Pick(r, dsts)
-			switch r.Intn(12) {
+			switch r.Intn(13) {
+			case 12:
+				ops = append(ops, "fault "+hx.Pick(r, []string{"on", "off", "off"}))
 			case 0, 1, 2:
 				ops = append(ops, "alloc "+hexip(p))
 			case 3, 4:
@@ -418,7 +459,7 @@ func (comp) Gen(r *rand.Rand, tier string, emit func([]string)) {
 				ops = append(ops, egress(proto, p, d, uint16(5000+r.Intn(2)), 53))
 			}
 		}
-		ops = append(ops, "maps")
+		ops = append(ops, "fault off", "maps")
 		emit(ops)
 	}
 }
